@@ -99,6 +99,7 @@ func plCoverage(c *fw.Ctx, fn *ssa.Function) (scalars map[string]string, maps ma
 						if st := derefStructOf(ad.X.Type()); st != nil && st.NumFields() >= 2 {
 							if side := st.Field(ad.Field).Name(); side == "old" || side == "new" {
 								checkPairValue(c, fn, x, side, fw.Sig(x.Val))
+								checkPairSides(c, f, x, side)
 							}
 						}
 					case *ssa.IndexAddr:
@@ -333,6 +334,78 @@ func isOldNewEq(a string) bool {
 	return (strings.Contains(a, ".old == ") && strings.HasSuffix(a, ".new)")) || (strings.Contains(a, ".new == ") && strings.HasSuffix(a, ".old)"))
 }
 
+// loopHeaderAtoms: the conditions of the loop headers of fn, split into the loops whose body
+// compares an old with a new level and the other loops.
+func loopHeaderAtoms(fn *ssa.Function) (check, other map[string]bool) {
+	check, other = map[string]bool{}, map[string]bool{}
+	for _, h := range fn.Blocks {
+		if len(h.Instrs) == 0 {
+			continue
+		}
+		iff, ok := h.Instrs[len(h.Instrs)-1].(*ssa.If)
+		if !ok {
+			continue
+		}
+		// a loop header: some predecessor is dominated by it
+		isHeader := false
+		for _, p := range h.Preds {
+			if h.Dominates(p) {
+				isHeader = true
+			}
+		}
+		if !isHeader {
+			continue
+		}
+		body := map[*ssa.BasicBlock]bool{}
+		for _, b := range fn.Blocks {
+			if h.Dominates(b) && b != h && fw.Reachable(fn, nil)[b] {
+				for _, r := range reachSet(b) {
+					if r == h {
+						body[b] = true
+					}
+				}
+			}
+		}
+		compares := false
+		for b := range body {
+			if len(b.Instrs) == 0 {
+				continue
+			}
+			if i2, ok := b.Instrs[len(b.Instrs)-1].(*ssa.If); ok {
+				cv, _ := fw.BoolCond(i2.Cond)
+				if isOldNewEq(fw.Sig(cv)) {
+					compares = true
+				}
+			}
+		}
+		cv, _ := fw.BoolCond(iff.Cond)
+		if compares {
+			check[fw.Sig(cv)] = true
+		} else {
+			other[fw.Sig(cv)] = true
+		}
+	}
+	return
+}
+
+// reachSet: the blocks reachable from b (b's successors onwards).
+func reachSet(b *ssa.BasicBlock) []*ssa.BasicBlock {
+	seen := map[*ssa.BasicBlock]bool{}
+	var out []*ssa.BasicBlock
+	work := append([]*ssa.BasicBlock{}, b.Succs...)
+	for len(work) > 0 {
+		x := work[len(work)-1]
+		work = work[:len(work)-1]
+		if seen[x] {
+			continue
+		}
+		seen[x] = true
+		out = append(out, x)
+		work = append(work, x.Succs...)
+	}
+	return out
+}
+
 // checkPairRules: decision tables of the comparison loops.
 func checkPairRules(c *fw.Ctx, fam map[string]*ssa.Function) {
 	rule := "2 pair-rules"
@@ -363,13 +436,16 @@ func checkPairRules(c *fw.Ctx, fam map[string]*ssa.Function) {
 		if users {
 			vars = append(vars, tvar{"self", tf})
 		}
+		// loop conditions: the table describes one visit of the comparison loop - the loop that
+		// contains the old/new comparison has an element, every other loop (the passes that
+		// build the list) is over
+		inCheck, inOther := loopHeaderAtoms(fn)
 		ip := &interp{match: func(atom string, a asg) (bool, bool) {
 			switch {
-			case strings.HasPrefix(atom, "next(range(*&param:") || (strings.HasPrefix(atom, "((phi(-1|") && strings.Contains(atom, "< builtin.len(")):
-				// in the comparison loop: building passes are over, the checking loop has an element
-				return strings.Contains(atom, "< builtin.len(") || atom == "next(range(makemap))#0", true
-			case atom == "next(range(makemap))#0":
+			case inCheck[atom] && !inOther[atom]:
 				return true, true
+			case inOther[atom] && !inCheck[atom]:
+				return false, true
 			case isOldNewEq(atom):
 				return a["on"] == "=", true
 			case strings.HasPrefix(atom, "("+senderSig+" < ") && strings.HasSuffix(atom, ".new)"):
@@ -651,5 +727,146 @@ func checkCreatorDomain(c *fw.Ctx, rule string, v3 *ssa.Function) {
 		c.Fail(rule, construct, pos, detail)
 	default:
 		c.Undecided(rule, construct, detail)
+	}
+}
+
+// sideRoots: which of the two power-level contents (old / new) the *value* v is read from.
+// Map keys and indices are not followed (a key found on one side is legitimately looked up on
+// the other); the defaulting accessors contribute their receiver; repository helpers and
+// closures are entered through their returned values. unknown: some part was not traced.
+func sideRoots(v ssa.Value, fr *fw.Frame, depth int, seen map[ssa.Value]bool, roots map[string]bool) (unknown bool) {
+	if depth > 12 || seen[v] {
+		return depth > 12
+	}
+	seen[v] = true
+	rec := func(x ssa.Value) bool { return sideRoots(x, fr, depth+1, seen, roots) }
+	switch x := v.(type) {
+	case *ssa.Const:
+		return false
+	case *ssa.Parameter:
+		if a, ok := fr.ArgOf(x); ok {
+			return sideRoots(a, fr.Parent, depth+1, seen, roots)
+		}
+		s := fw.Sig(x)
+		switch {
+		case isPLC(derefType(x.Type())) && strings.HasPrefix(s, "param:old"):
+			roots["old"] = true
+		case isPLC(derefType(x.Type())) && strings.HasPrefix(s, "param:new"):
+			roots["new"] = true
+		default:
+			return true
+		}
+		return false
+	case *ssa.FreeVar:
+		fn := x.Parent()
+		idx := -1
+		for i, fv := range fn.FreeVars {
+			if fv == x {
+				idx = i
+			}
+		}
+		if fn.Parent() == nil || idx < 0 {
+			return true
+		}
+		for _, b := range fn.Parent().Blocks {
+			for _, ins := range b.Instrs {
+				if mc, ok := ins.(*ssa.MakeClosure); ok && mc.Fn == ssa.Value(fn) && idx < len(mc.Bindings) {
+					// the closure is entered in the frame of its call; its bindings live in the parent
+					var pf *fw.Frame
+					if fr != nil {
+						pf = fr.Parent
+					}
+					return sideRoots(mc.Bindings[idx], pf, depth+1, seen, roots)
+				}
+			}
+		}
+		return true
+	case *ssa.Alloc:
+		un := false
+		n := 0
+		for _, ref := range *x.Referrers() {
+			if st, ok := ref.(*ssa.Store); ok && st.Addr == ssa.Value(x) {
+				n++
+				un = rec(st.Val) || un
+			}
+		}
+		return un || n == 0
+	case *ssa.UnOp:
+		return rec(x.X)
+	case *ssa.FieldAddr:
+		return rec(x.X)
+	case *ssa.Field:
+		return rec(x.X)
+	case *ssa.IndexAddr:
+		return rec(x.X)
+	case *ssa.Index:
+		return rec(x.X)
+	case *ssa.Lookup:
+		return rec(x.X)
+	case *ssa.Extract:
+		return rec(x.Tuple)
+	case *ssa.Next:
+		return rec(x.Iter)
+	case *ssa.Range:
+		return rec(x.X)
+	case *ssa.Convert:
+		return rec(x.X)
+	case *ssa.ChangeType:
+		return rec(x.X)
+	case *ssa.Phi:
+		un := false
+		for _, e := range x.Edges {
+			un = rec(e) || un
+		}
+		return un
+	case *ssa.BinOp:
+		return rec(x.X) || rec(x.Y)
+	case *ssa.Call:
+		name := fw.CalleeName(x)
+		if strings.HasPrefix(name, "(*gmsl.PowerLevelContent).") || strings.HasPrefix(name, "(gmsl.PowerLevelContent).") {
+			if len(x.Call.Args) > 0 {
+				return rec(x.Call.Args[0])
+			}
+			return true
+		}
+		callee := fw.Followable(x, fr)
+		if callee == nil {
+			return true
+		}
+		nf := &fw.Frame{Site: x, Callee: callee, Parent: fr}
+		un := false
+		for _, r := range fw.Returns(callee) {
+			if len(r.Results) == 0 {
+				return true
+			}
+			un = sideRoots(r.Results[0], nf, depth+1, seen, roots) || un
+		}
+		return un
+	}
+	return true
+}
+
+func derefType(t types.Type) types.Type {
+	if p, ok := t.Underlying().(*types.Pointer); ok {
+		return p.Elem()
+	}
+	return t
+}
+
+// checkPairSides: the old member of an old/new pair is read from the old content only, the new
+// member from the new content only (a default taken from the wrong event compares a removed or
+// added entry with the wrong level).
+func checkPairSides(c *fw.Ctx, fn *ssa.Function, st *ssa.Store, side string) {
+	roots := map[string]bool{}
+	unknown := sideRoots(st.Val, nil, 0, map[ssa.Value]bool{}, roots)
+	other := map[string]string{"old": "new", "new": "old"}[side]
+	construct := fmt.Sprintf("%s: the %s level of a pair is read from the %s content only", fw.FuncName(fn), side, side)
+	switch {
+	case roots[other]:
+		c.Fail("1 coverage", construct, c.P.Pos(fw.InstrPos(st)), fmt.Sprintf("the %s level is (also) computed from the %s power levels (%s): an entry that is absent on the %s side is compared with the other event's default", side, other, fw.Sig(st.Val), side))
+	case unknown || !roots[side]:
+		c.Undecided("1 coverage", construct, "the origin of "+fw.Sig(st.Val)+" was not traced completely")
+	default:
+		c.Ok("1 coverage", construct, c.P.Pos(fw.InstrPos(st)), "")
 	}
 }
